@@ -21,7 +21,8 @@ META = {
         'fallback and variant class of every container has a minimal wire size >= 1 (a zero width item would spin the '
         'container loop forever), every symbolic loop of a _parse contains a consuming primitive, and every while loop of '
         'common/parse.py reassigns a variable of its condition or leaves through break/raise/return. R3 (no rescans): an '
-        'input sized scan called from inside an input sized loop must start at an offset that the outer loop advances.'),
+        'input sized scan called from inside an input sized loop must start at an offset that the outer loop advances.'
+        ' R2 also reports a path through a count-driven loop that reaches the next iteration without consuming (a swallowed read failure). R5: outside the registration API no function writes class-level state or mutates a container reached through it (memoisation under an \'if key not in\' guard accepted). R6: no list.remove/index/count inside a loop of a parse function.'),
     'assumptions': ['C-level cost of slicing and of library calls (dateutil, asn1crypto, struct) is not counted',
                     'the global linear bound with a fixed constant per class is not proven'],
     'trusted_base': ['python ast', 'sa.interp traces', 'sa.canon min_size'],
